@@ -66,7 +66,8 @@ func NewMethodEvaluator(
 	)
 	p.SetLastResolvedMethodT(nil)
 
-	if ctx.IsCheckRound() {
+	// a call in a condition is met twice (narrowing scan, then evaluation): it is one call site
+	if ctx.IsCheckRound() && !ctx.IsConditionScan {
 		key := evaluatedObjectT.GetFrame() + evaluatedObjectT.GetObjectClass() + methodIdentifierT.ToString()
 		point := p.FileName + ":" + strconv.Itoa(p.Row)
 
